@@ -7,6 +7,22 @@ PKGS = {
 }
 
 PROPS = {
+    "C13": {
+        "harnesses": [
+            {"pkg": "bscript", "name": "VH_C13_Parts", "quick": {"params": {"P": 2, "BIG": 0}}, "thorough": {"params": {"P": 3, "BIG": 1}}},
+            {"pkg": "bscript", "name": "VH_C13_DecodeParts", "quick": {"params": {"L": 4}}, "thorough": {"params": {"L": 7}}},
+            {"pkg": "bscript", "name": "VH_C13_HexJSON", "quick": {"params": {"L": 3}}, "thorough": {"params": {"L": 6}}},
+        ],
+        "assumptions": [],
+    },
+    "C14": {
+        "harnesses": [
+            {"pkg": "bscript", "name": "VH_C14_Inspect", "quick": {"params": {"L": 3}}, "thorough": {"params": {"L": 5}}},
+            {"pkg": "bscript", "name": "VH_C14_Fixed"},
+            {"pkg": "bscript", "name": "VH_C14_Templates"},
+        ],
+        "assumptions": [],
+    },
     "C08": {
         "harnesses": [
             {"pkg": "interpreter", "name": "VH_C08_Alias", "quick": {"params": {"K": 2, "U": 6, "NUMERIC": 0}}, "thorough": {"params": {"K": 3, "U": 8, "NUMERIC": 1}}},
